@@ -65,10 +65,11 @@ pub struct ScriptWriter {
     pub flushes: u64,
     pub failed: bool,
     pub writes_after_failure: u64,
+    pub vectored_calls: u64,
 }
 impl ScriptWriter {
     pub fn new(accept: Vec<usize>, fail_at: Option<usize>, pending: u64) -> Self {
-        Self { out: Vec::new(), accept, idx: 0, fail_at, pending, polls: 0, just_pended: false, flushes: 0, failed: false, writes_after_failure: 0 }
+        Self { out: Vec::new(), accept, idx: 0, fail_at, pending, polls: 0, just_pended: false, flushes: 0, failed: false, writes_after_failure: 0, vectored_calls: 0 }
     }
 }
 impl AsyncWrite for ScriptWriter {
@@ -98,6 +99,12 @@ impl AsyncWrite for ScriptWriter {
         }
         self.out.extend_from_slice(&buf[..n]);
         Poll::Ready(Ok(n))
+    }
+    /// Real `writev` semantics: the accepted count of this call is spread over the buffers in order.
+    fn poll_write_vectored(mut self: Pin<&mut Self>, cx: &mut Context<'_>, bufs: &[std::io::IoSlice<'_>]) -> Poll<Result<usize, Error>> {
+        let all: Vec<u8> = bufs.iter().flat_map(|b| b.iter().copied()).collect();
+        self.vectored_calls += 1;
+        self.as_mut().poll_write(cx, &all)
     }
     fn poll_flush(mut self: Pin<&mut Self>, _cx: &mut Context<'_>) -> Poll<Result<(), Error>> {
         self.flushes += 1;
